@@ -283,7 +283,17 @@ def _wire_check(ctx, dd, what, owner_sig, name_el, attrs, conds, site, roles_fou
             if c[0] == 'if' and c[2] is True and c[1][0] == 'op' and c[1][1] == '!=':
                 l, r = c[1][2]
                 pair = {repr(TM.strip_bases(l)), repr(TM.strip_bases(r))}
+
+                def same_value(a_, b_):
+                    """same term, or — when one side was split into its alternatives by a conditional hole — the same
+                    set of (origin, transforms) data paths"""
+                    if repr(TM.strip_bases(a_)) == repr(TM.strip_bases(b_)):
+                        return True
+                    pa, pb = set(TM.paths(a_)), set(TM.paths(b_))
+                    return bool(pa) and pa == pb
                 if pair == {repr(TM.strip_bases(V)), repr(TM.strip_bases(S))}:
+                    good = True
+                elif (same_value(l, V) and same_value(r, S)) or (same_value(r, V) and same_value(l, S)):
                     good = True
                 else:
                     other = r if repr(TM.strip_bases(l)) == repr(TM.strip_bases(V)) else l
